@@ -31,7 +31,7 @@ var utInfos = []utInfo{
 	{ifs: []int{0}, pp: true}, {ifs: []int{2}, lazy: true, runner: true}, {ifs: []int{0, 1}, f1: true}, {ifs: []int{1}, qual: true},
 	{ifs: []int{0, 1}, pp: true}, {ifs: []int{1}, pp: true},
 	{ifs: []int{0, 2}}, {ifs: []int{1}, qual: true}, {ifs: []int{0}, pp: true},
-	{ifs: []int{1}, pp: true}, {ifs: []int{2}, pp: true},
+	{ifs: []int{1}, pp: true}, {ifs: []int{2}, pp: true}, {ifs: []int{3}, pp: true},
 }
 
 var namePool = []string{"a", "b", "c", "d", "e", "f", "ga", "gz", "h", "k", "la", "lz", "m", "n", "p", "q", "s", "t", "u", "w", "x", "y", "za", "zz"}
@@ -87,7 +87,7 @@ func (g *gBuilder) nameOf(i int) string {
 func (g *gBuilder) randType(pred func(utInfo) bool) int {
 	for tries := 0; tries < 200; tries++ {
 		t := g.r.Intn(universeTypeCount)
-		if t == 14 || t == 19 || t == 23 || t == 24 {
+		if t == 14 || t == 19 || t == 23 || t == 24 || t == 25 {
 			continue // the priority post-processor types are only added on purpose (at most one per scenario)
 		}
 		if pred == nil || pred(utInfos[t]) {
@@ -519,6 +519,31 @@ func genOddProcessors(r *hx.Rng) *gScen {
 		}
 		if r.P(1, 2) {
 			g.sc.nodes[h].slots["X0"] = "w"
+		}
+	}
+	return g.sc
+}
+
+// holders whose unqualified wire points are qualified IN CODE by a user processor (T25, ordered before narrowing) — over
+// providers with and without matching qualifiers
+func genProgQualified(r *hx.Rng) *gScen {
+	g := newBuilder(r)
+	g.addNode(25, true)
+	np := 3 + r.Intn(4)
+	for i := 0; i < np; i++ {
+		g.addNode(g.randType(func(u utInfo) bool { return len(u.ifs) > 0 && !u.pp && (u.qual || r.P(1, 3)) }), r.P(1, 3))
+	}
+	nh := 1 + r.Intn(2)
+	for j := 0; j < nh; j++ {
+		h := g.addNode(g.randType(func(u utInfo) bool { return !u.pp }), r.P(1, 3))
+		g.sc.nodes[h].progQ = []string{"a", "b", "c", "zz"}[r.Intn(4)]
+		for _, sl := range []string{"S0", "S1", "S2", "X0", "X1", "X2"} {
+			if r.P(1, 2) {
+				g.sc.nodes[h].slots[sl] = "w" + []string{"", ",required=false"}[r.Intn(2)]
+			}
+		}
+		if len(g.sc.nodes[h].slots) == 0 {
+			g.sc.nodes[h].slots["S1"] = "w,required=false"
 		}
 	}
 	return g.sc
@@ -983,6 +1008,7 @@ func graphCorpus(w *hx.Writer) {
 		emitGraph(genArrayCycle(r.Fork()), []string{"corpus", "arraycycle"}, w)
 		emitGraph(genAllOptional(r.Fork()), []string{"corpus", "alloptional"}, w)
 		emitGraph(genOddProcessors(r.Fork()), []string{"corpus", "oddpp"}, w)
+		emitGraph(genProgQualified(r.Fork()), []string{"corpus", "progq"}, w)
 		if i < 12 {
 			emitGraph(genTolerated(r.Fork()), []string{"corpus", "tolerated"}, w)
 			emitGraph(genRetryCycle(r.Fork(), i%5), []string{"corpus", "retrycycle"}, w)
